@@ -188,7 +188,16 @@ where
 
                 block
             }
-            None => Block::default(),
+            None => {
+                // At EOF, the (empty) block is positioned at the given compressed position.
+                let (cpos, _) = pos.into();
+
+                self.position = cpos;
+
+                let mut block = Block::default();
+                block.set_position(cpos);
+                block
+            }
         };
 
         self.stream.replace(stream);
@@ -243,7 +252,17 @@ where
                             block
                         }
                         Some(Err(e)) => return Poll::Ready(Err(e)),
-                        None => Block::default(),
+                        None => {
+                            // At EOF, the (empty) block is positioned at the given compressed
+                            // position.
+                            let (cpos, _) = pos.into();
+
+                            self.position = cpos;
+
+                            let mut block = Block::default();
+                            block.set_position(cpos);
+                            block
+                        }
                     };
 
                     self.stream.replace(stream);
